@@ -10,6 +10,7 @@ argv[1] = behaviour:
   flood_junk        floods its stdout with short lines that are not messages ("x" - progress dots, log lines on stdout),
                     as fast as the pipe takes them (non-blocking writes, retried); dies at once on SIGTERM
   flood_noline      the same flood, but the data never contains a line break
+  junk_batch:<n>    keeps writing lines that are JSON arrays of n numbers (a "batch" whose members are no messages)
   close_stdout      closes stdout, then sleeps
   close_stdin       closes stdin, then sleeps (still holds stdout)
   slow_start:<s>    sleeps s seconds, then behaves well
@@ -115,6 +116,14 @@ elif beh.startswith("flood_noline"):
             pass
         except BaseException:
             os._exit(0)
+elif beh.startswith("junk_batch:"):
+    out({"jsonrpc": "2.0", "method": "notifications/ready"})
+    line = b"[" + b",".join([b"0"] * int(beh.split(":")[1])) + b"]\n"
+    try:
+        while True:
+            os.write(1, line)
+    except BaseException:
+        os._exit(0)
 elif beh == "flood_junk":
     out({"jsonrpc": "2.0", "method": "notifications/ready"})
     os.set_blocking(1, False)
